@@ -80,6 +80,8 @@ pub enum Kind {
     Join { left: String, right: String, window_ms: i64 },
     Distinct { src: String },
     Limit { src: String, n: usize },
+    /// `fn sh<name>(v: int) -> int: v + add` + `Src .where(sh<name>(x) >= min) .emit(uid: uid, x: x, k: k)`
+    FnFilter { src: String, add: i64, min: i64 },
 }
 
 #[derive(Clone, Debug, PartialEq, Eq, Hash)]
@@ -106,6 +108,7 @@ impl StreamDef {
     pub fn decl(&self) -> Option<String> {
         match &self.kind {
             Kind::Pattern { expr, .. } => Some(format!("pattern P{} = {}\n", self.name, expr)),
+            Kind::FnFilter { add, .. } => Some(format!("fn sh{}(v: int) -> int:\n    v + {}\n", self.name, add)),
             _ => None,
         }
     }
@@ -190,6 +193,7 @@ impl StreamDef {
             ),
             Kind::Distinct { src } => format!("stream {} = {}\n    .distinct(x)\n    .emit(uid: uid, x: x, k: k)\n", n, src),
             Kind::Limit { src, n: lim } => format!("stream {} = {}\n    .limit({})\n    .emit(uid: uid, x: x, k: k)\n", n, src, lim),
+            Kind::FnFilter { src, min, .. } => format!("stream {} = {}\n    .where(sh{}(x) >= {})\n    .emit(uid: uid, x: x, k: k)\n", n, src, n, min),
         }
     }
     /// Finite label of the stream's operator family (signature component).
@@ -221,19 +225,20 @@ impl StreamDef {
             Kind::Join { .. } => "join".into(),
             Kind::Distinct { .. } => "distinct".into(),
             Kind::Limit { .. } => "limit".into(),
+            Kind::FnFilter { .. } => "filter-fn".into(),
         }
     }
     pub fn is_stateful(&self) -> bool {
-        !matches!(&self.kind, Kind::Filter { .. } | Kind::Merge { .. })
+        !matches!(&self.kind, Kind::Filter { .. } | Kind::Merge { .. } | Kind::FnFilter { .. })
     }
     /// Output events keep uid/x/k (so they can feed another pass-through stream)?
     pub fn passes_fields(&self) -> bool {
-        matches!(&self.kind, Kind::Filter { .. } | Kind::Merge { .. } | Kind::Distinct { .. } | Kind::Limit { .. })
+        matches!(&self.kind, Kind::Filter { .. } | Kind::Merge { .. } | Kind::Distinct { .. } | Kind::Limit { .. } | Kind::FnFilter { .. })
     }
     /// Stream / event-type names this definition refers to.
     pub fn refs_mut(&mut self) -> Vec<&mut String> {
         match &mut self.kind {
-            Kind::Filter { src, .. } | Kind::Window { src, .. } | Kind::Distinct { src } | Kind::Limit { src, .. } => vec![src],
+            Kind::Filter { src, .. } | Kind::Window { src, .. } | Kind::Distinct { src } | Kind::Limit { src, .. } | Kind::FnFilter { src, .. } => vec![src],
             Kind::Merge { left, right, .. } | Kind::Join { left, right, .. } => vec![left, right],
             Kind::Seq { steps, .. } => steps.iter_mut().map(|s| &mut s.ty).collect(),
             Kind::Pattern { .. } => vec![],
@@ -265,6 +270,8 @@ pub struct POpts {
     /// named SASE patterns (SEQ with NOT, AND)
     pub patterns: bool,
     pub merges: bool,
+    /// filters that call a user function
+    pub functions: bool,
 }
 
 const CMPS: [&str; 4] = [">=", ">", "<=", "=="];
@@ -383,6 +390,8 @@ pub fn gen_prog(rng: &mut Rng, o: &POpts) -> Prog {
                 right = srcs.iter().find(|s| **s != left).cloned().unwrap_or(right);
             }
             Kind::Merge { left, left_min_x: if rng.chance(1, 2) { Some(rng.range(0, 3)) } else { None }, right, emit: rng.chance(2, 3) }
+        } else if o.functions && r < 94 {
+            Kind::FnFilter { src, add: rng.range(0, 2), min: rng.range(1, 4) }
         } else {
             Kind::Filter { src, min_x: if rng.chance(2, 3) { Some(rng.range(0, 3)) } else { None }, emit: rng.chance(2, 3) }
         };
@@ -465,6 +474,8 @@ pub struct IOpts {
     /// watermark sources to advance now and then (empty: no Wm steps)
     pub wm_sources: Vec<String>,
     pub vars: bool,
+    /// events of this type run behind the others by this many milliseconds (a lagging source)
+    pub lag: Option<(String, i64)>,
 }
 
 pub fn gen_steps(rng: &mut Rng, len: usize, o: &IOpts) -> Vec<Step> {
@@ -501,6 +512,11 @@ pub fn gen_steps(rng: &mut Rng, len: usize, o: &IOpts) -> Vec<Step> {
             14..=17 => "C",
             _ => "N",
         };
+        if let Some((lt, ms)) = &o.lag {
+            if lt == ty {
+                t = (t - ms * 1000).max(0);
+            }
+        }
         out.push(Step::Ev(In { uid, ty: ty.to_string(), x: rng.range(0, 4), k: rng.range(1, 3), ts_us: t }));
     }
     out
